@@ -14,14 +14,19 @@
 #endif
 int atexit(void (*fn)(void)) { (void) fn; return 0; }
 static const MPT_STRUCT(type_traits) tr[2] = { MPT_TYPETRAIT_INIT(12), MPT_TYPETRAIT_INIT(20) };
-static const char *names[3] = { "alpha", "beta_", "abc" };   /* third is too short */
+static const char *names[3] = { "solve", "beta_", "abc" };   /* "solve" is a proper prefix of the built-in interface "solver" */   /* third is too short */
 
 void harness(void)
 {
 	unsigned ids[K]; const void *obj[K]; int kind[K]; int nameidx[K];
 	int n = 0, k, j;
 	for (k = 0; k < K; k++) {
+#ifdef OPS
+		static const int opseq[] = OPS;
+		int op = opseq[k];
+#else
 		int op = (int) V_IN_RANGE("op", 0, 3);
+#endif
 		if (op == 0) {
 			size_t sz = V_IN_RANGE("size", 0, 40);
 			int id = mpt_type_basic_add(sz);
@@ -38,9 +43,14 @@ void harness(void)
 			ids[n] = id; obj[n] = &tr[w]; kind[n] = 1; nameidx[n] = -1; n++;
 		}
 		else {
+#ifdef NAMEIDX
+			static const int nameseq[] = NAMEIDX;
+			int ni = nameseq[k], dup = 0;
+#else
 			int ni = (int) V_IN_RANGE("name", 0, 2), dup = 0;
+#endif
 			const MPT_STRUCT(named_traits) *e;
-			for (j = 0; j < n; j++) if (nameidx[j] == ni) dup = 1;
+			for (j = 0; j < n; j++) if (nameidx[j] == ni && kind[j] == op) dup = 1;   /* duplicates are per kind */
 			e = (op == 2) ? mpt_type_interface_add(names[ni]) : mpt_type_metatype_add(names[ni]);
 			if (ni == 2) { V_ASSERT(e == 0, "names shorter than 4 characters are refused"); continue; }
 			if (dup) { V_ASSERT(e == 0, "duplicate names are refused"); continue; }
